@@ -5,7 +5,12 @@ Cases: constraint templates (1-3 fields on attributes / child elements, typed in
 boolean / string / QName, constraints on the root, on a repeated section, on a sub-section, on a
 recursive section, key references to the same element or to a key of a descendant element) x tables
 of field tuples (exhaustive small tables + seeded random ones) with lexical variants of equal
-values, absent fields and duplicates, plus ID / IDREF attributes.
+values, absent fields and duplicates, plus ID / IDREF attributes, x the NAMESPACE DECLARATIONS IN SCOPE
+where a field value is read: xmlns declarations (prefix rebindings p/q/r -> urn:a/b/c, default namespace on
+the target-namespace template) on the root, on containers, on the selected rows, on the field child elements,
+on leading (`pre`) / trailing (`note`) children of a row and their descendants, and on sibling `note`
+elements between rows; source kinds ElementTree element + `namespaces` argument (xmlns processing 'none'),
+XML text and lxml tree (stacked xmlns contexts), with / without a conflicting `namespaces` argument.
 
 For every case the real schema is built from generated XSD text, the instance is validated with
 `iter_errors`, and three things are compared:
@@ -55,6 +60,11 @@ FINDINGS_FILE = VERIF / 'notes' / 'findings' / 'C08.json'
 
 XS = 'http://www.w3.org/2001/XMLSchema'
 NSDECL = {'p': 'urn:a', 'q': 'urn:a', 'r': 'urn:b'}
+TNS = 'urn:t'                                   # target namespace of the `tns` templates (prefix t)
+# a `namespaces` argument that the document's declarations must override (were it to win, p:x = r:x and p:x != q:x)
+NSARG = {'p': 'urn:b', 'q': 'urn:c', 'z': 'urn:b'}
+URIS = ['urn:a', 'urn:b', 'urn:c']
+FSCOPE = False          # the tree under check resolves QName fields at the field node (C08-F8 repaired); see detect_mode
 
 # value pools: type -> list of (value key, lexical variants).  Equal value keys (within one primitive
 # family) denote the same value of the value space.
@@ -65,6 +75,8 @@ POOL = {
     'boolean': [('bT', ['true', '1', ' true ']), ('bF', ['false', '0'])],
     'string': [('s:a', ['a']), ('s:A', ['A']), ('s:1', ['1']), ('s:01', ['01']), ('s:{urn:a}x', ['{urn:a}x']),
                ('s:true', ['true'])],
+    # QName value keys are NOT part of the case: the oracle computes them from the lexical form and the
+    # declarations in scope of the abstract node (`resolve_qname`); the keys here hold under NSDECL only
     'QName': [('{urn:a}x', ['p:x', 'q:x', ' p:x']), ('{urn:a}y', ['p:y']), ('{urn:b}x', ['r:x']), ('x', ['x'])],
 }
 PRIM = {'integer': 'decimal', 'decimal': 'decimal', 'boolean': 'boolean', 'string': 'string', 'QName': 'qname'}
@@ -73,6 +85,8 @@ TYPES = list(POOL)
 
 # element structure of every template (declaration name -> allowed children)
 STRUCT = {'root': ['sec', 'item', 'ref'], 'sec': ['item', 'ref', 'sub', 'sec'], 'sub': ['item', 'ref']}
+# besides: every container admits `note` elements among its children; a row (item / ref) is
+#   pre*, the child-located fields, note*      where pre / note are empty elements that may nest notes
 # selectors usable from each scope declaration for a row tag
 SELECTORS = {
     'root': ['{t}', 'sec/{t}', './/{t}', '*/{t}', 'sec/sub/{t}', '{t}|sec/{t}', './sec/{t}', 'sec/*/{t}'],
@@ -84,8 +98,15 @@ SELECTORS = {
 # ------------------------------------------------------------------------------------------------
 # tiny path evaluator over the abstract document (independent of elementpath and of Lean)
 # ------------------------------------------------------------------------------------------------
-def parse_xpath(text: str) -> list[dict]:
-    """restricted syntax -> [{'d': bool, 's': [steps], 'a': attr|None}]"""
+def parse_xpath(text: str, nsmap: Optional[dict] = None) -> list[dict]:
+    """restricted syntax -> [{'d': bool, 's': [steps], 'a': attr|None}]; with `nsmap` (the namespaces of the
+    schema component) prefixed name steps are expanded to '{uri}local', the form of the instance tags"""
+    def expand(st: str) -> str:
+        if nsmap and ':' in st:
+            pfx, loc = st.split(':', 1)
+            return '{%s}%s' % (nsmap[pfx], loc)
+        return st
+
     out = []
     for alt in text.replace(' ', '').split('|'):
         d = False
@@ -102,7 +123,7 @@ def parse_xpath(text: str) -> list[dict]:
             elif st.startswith('attribute::'):
                 attr = st[11:]
             else:
-                steps.append(st)
+                steps.append(expand(st))
         out.append({'d': d, 's': steps, 'a': attr})
     return out
 
@@ -140,11 +161,11 @@ def a_select(xpath: str, n: dict) -> list[dict]:
 # ------------------------------------------------------------------------------------------------
 # generator
 # ------------------------------------------------------------------------------------------------
-def gen_fields(rng, nf: int) -> list[dict]:
+def gen_fields(rng, nf: int, qbias: float = 0.0) -> list[dict]:
     """fields of the key side (rows `item`) and of the keyref side (rows `ref`)"""
     fs = []
     for i in range(nf):
-        ty = rng.choice(TYPES)
+        ty = 'QName' if rng.random() < qbias else rng.choice(TYPES)
         r = rng.random()
         if r < 0.7:
             rty = ty
@@ -185,27 +206,32 @@ def gen_constraints(rng, fields: list[dict], recursive: bool) -> list[dict]:
     return cons
 
 
-def gen_row(rng, tag: str, fields: list[dict], p_absent: float, nclasses: int) -> dict:
+# on the target-namespace template the unprefixed name (default namespace) is a frequent QName value
+POOL_TNS_QNAME = [('{urn:a}x', ['p:x', 'q:x', ' p:x']), ('x', ['x', ' x']), ('{urn:b}x', ['r:x']), ('{urn:a}y', ['p:y'])]
+
+
+def gen_row(rng, tag: str, fields: list[dict], p_absent: float, nclasses: int, tns: bool = False) -> dict:
     vals = []
     for f in fields:
         ty = f['ty'] if tag == 'item' else f['rty']
         if rng.random() < p_absent:
             vals.append(None)
         else:
-            pool = POOL[ty][:max(1, nclasses)] if rng.random() < 0.85 else POOL[ty]
+            full = POOL_TNS_QNAME if tns and ty == 'QName' else POOL[ty]
+            pool = full[:max(1, nclasses)] if rng.random() < 0.85 else full
             key, lex = rng.choice(pool)
-            vals.append([key, rng.choice(lex)])
+            vals.append([None if ty == 'QName' else key, rng.choice(lex)])
     return {'tag': tag, 'vals': vals, 'kids': [], 'id': None, 'idref': None}
 
 
-def gen_doc(rng, fields: list[dict], recursive: bool, big: bool) -> dict:
+def gen_doc(rng, fields: list[dict], recursive: bool, big: bool, tns: bool = False) -> dict:
     p_absent = rng.choice([0.0, 0.0, 0.1, 0.3])
     ncl = rng.choice([1, 2, 2, 3])
 
     def rows(lo, hi):
         out = []
         for _ in range(rng.randint(lo, hi)):
-            out.append(gen_row(rng, rng.choice(['item', 'item', 'ref']), fields, p_absent, ncl))
+            out.append(gen_row(rng, rng.choice(['item', 'item', 'ref']), fields, p_absent, ncl, tns))
         return out
 
     def sec(depth):
@@ -232,8 +258,25 @@ def gen_doc(rng, fields: list[dict], recursive: bool, big: bool) -> dict:
     return root
 
 
+def qual_xpath(xp: str, tns: bool) -> str:
+    """the abstract selector / field path as written in the schema: name steps get the prefix t on the
+    target-namespace template"""
+    if not tns:
+        return xp
+    out = []
+    for alt in xp.split('|'):
+        lead = ''
+        if alt.startswith('.//'):
+            lead, alt = './/', alt[3:]
+        out.append(lead + '/'.join(st if st in ('.', '*') or st.startswith('@') else 't:' + st
+                                   for st in alt.split('/')))
+    return '|'.join(out)
+
+
 def schema_text(case: dict) -> str:
     fields, cons = case['fields'], case['cons']
+    tns = bool(case.get('tns'))
+    pf = 't:' if tns else ''
 
     def row_decl(tag):
         side = 'item' if tag == 'item' else 'ref'
@@ -246,7 +289,9 @@ def schema_text(case: dict) -> str:
                 attrs.append(f'<xs:attribute name="{f["name"]}" type="xs:{ty}"/>')
         attrs.append('<xs:attribute name="id" type="xs:ID"/>' if tag == 'item'
                      else '<xs:attribute name="idr" type="xs:IDREF"/>')
-        return (f'<xs:element name="{tag}"><xs:complexType><xs:sequence>{"".join(kids)}</xs:sequence>'
+        return (f'<xs:element name="{tag}"><xs:complexType><xs:sequence>'
+                f'<xs:element ref="{pf}pre" minOccurs="0" maxOccurs="unbounded"/>{"".join(kids)}'
+                f'<xs:element ref="{pf}note" minOccurs="0" maxOccurs="unbounded"/></xs:sequence>'
                 f'{"".join(attrs)}</xs:complexType></xs:element>')
 
     def idc(on):
@@ -254,63 +299,109 @@ def schema_text(case: dict) -> str:
         for c in cons:
             if c['on'] != on:
                 continue
-            refer = f' refer="{c["refer"]}"' if c['refer'] else ''
-            out.append(f'<xs:{c["kind"]} name="{c["name"]}"{refer}><xs:selector xpath="{c["sel"]}"/>'
-                       + ''.join(f'<xs:field xpath="{fx}"/>' for fx in c['fields']) + f'</xs:{c["kind"]}>')
+            refer = f' refer="{pf}{c["refer"]}"' if c['refer'] else ''
+            out.append(f'<xs:{c["kind"]} name="{c["name"]}"{refer}><xs:selector xpath="{qual_xpath(c["sel"], tns)}"/>'
+                       + ''.join(f'<xs:field xpath="{qual_xpath(fx, tns)}"/>' for fx in c['fields'])
+                       + f'</xs:{c["kind"]}>')
         return ''.join(out)
 
     def container(tag, local=False):
         kids = ''.join(
-            (f'<xs:element ref="{k}"/>' if k != 'sub' else container('sub', True))
+            (f'<xs:element ref="{pf}{k}"/>' if k != 'sub' else container('sub', True))
             for k in STRUCT[tag] if k != 'sec' or tag == 'root' or case['recursive'])
         return (f'<xs:element name="{tag}"><xs:complexType><xs:choice minOccurs="0" maxOccurs="unbounded">'
-                f'{kids}</xs:choice></xs:complexType>{idc(tag)}</xs:element>')
+                f'{kids}<xs:element ref="{pf}note"/></xs:choice></xs:complexType>{idc(tag)}</xs:element>')
 
-    return (f'<xs:schema xmlns:xs="{XS}">' + container('root') + container('sec') + row_decl('item')
-            + row_decl('ref') + '</xs:schema>')
+    head = (f'<xs:schema xmlns:xs="{XS}" xmlns:t="{TNS}" targetNamespace="{TNS}" elementFormDefault="qualified">'
+            if tns else f'<xs:schema xmlns:xs="{XS}">')
+    notes = (f'<xs:complexType name="noteT"><xs:sequence><xs:element ref="{pf}note" minOccurs="0" '
+             f'maxOccurs="unbounded"/></xs:sequence></xs:complexType>'
+             f'<xs:element name="note" type="{pf}noteT"/><xs:element name="pre" type="{pf}noteT"/>')
+    return (head + container('root') + container('sec') + row_decl('item') + row_decl('ref') + notes
+            + '</xs:schema>')
 
 
-def build_xml(case: dict) -> ET.Element:
+def root_decls(case: dict) -> dict:
+    """xmlns declarations written on the document element"""
+    d = dict(case['doc']['ns']) if 'ns' in case['doc'] else dict(NSDECL)
+    if case.get('tns'):
+        d['t'] = TNS
+    return d
+
+
+def _esc(v: str) -> str:
+    return v.replace('&', '&amp;').replace('<', '&lt;').replace('"', '&quot;')
+
+
+def xml_text(case: dict) -> str:
     fields = case['fields']
+    pf = 't:' if case.get('tns') else ''
 
-    def mk(n: dict) -> ET.Element:
-        e = ET.Element(n['tag'])
+    def decls(d: Optional[dict]) -> str:
+        return ''.join(f' xmlns{":" + p if p else ""}="{u}"' for p, u in (d or {}).items())
+
+    def mk(n: dict, top: bool = False) -> str:
+        out = [f'<{pf}{n["tag"]}', decls(root_decls(case) if top else n.get('ns'))]
+        inner: list[str] = []
         if n['tag'] in ('item', 'ref'):
+            fns = n.get('fns') or {}
             for f, v in zip(fields, n['vals']):
                 if v is None:
                     continue
                 loc = f['loc'] if n['tag'] == 'item' else f['rloc']
                 if loc == 'attr':
-                    e.set(f['name'], v[1])
+                    out.append(f' {f["name"]}="{_esc(v[1])}"')
                 else:
-                    ET.SubElement(e, f['name']).text = v[1]
+                    inner.append(f'<{pf}{f["name"]}{decls(fns.get(f["name"]))}>{_esc(v[1])}</{pf}{f["name"]}>')
             if n['id']:
-                e.set('id', n['id'])
+                out.append(f' id="{n["id"]}"')
             if n['idref']:
-                e.set('idr', n['idref'])
-        for k in n['kids']:
-            e.append(mk(k))
-        return e
+                out.append(f' idr="{n["idref"]}"')
+            inner = [mk(k) for k in n['kids'] if k['tag'] == 'pre'] + inner + \
+                    [mk(k) for k in n['kids'] if k['tag'] != 'pre']
+        else:
+            inner = [mk(k) for k in n['kids']]
+        return ''.join(out) + ('>' + ''.join(inner) + f'</{pf}{n["tag"]}>' if inner else '/>')
 
-    root = mk(case['doc'])
-    return root
-
-
-def xml_text(case: dict) -> str:
-    root = build_xml(case)
-    s = ET.tostring(root, encoding='unicode')
-    decl = ' '.join(f'xmlns:{p}="{u}"' for p, u in NSDECL.items())
-    return s.replace('<root', f'<root {decl}', 1)
+    return mk(case['doc'], True)
 
 
 # ------------------------------------------------------------------------------------------------
 # S: the property read directly on the abstract case (no Lean, no elementpath)
 # ------------------------------------------------------------------------------------------------
+def resolve_qname(lex: str, scope: dict) -> str:
+    """value of an xs:QName (as '{namespace name}local part') under the declarations in scope (XSD Part 2
+    §3.2.18 + Namespaces in XML §6: an unprefixed name takes the default namespace, if one is in scope)"""
+    s = lex.strip()
+    if ':' in s:
+        p, loc = s.split(':', 1)
+        return '{%s}%s' % (scope[p], loc)
+    d = scope.get('')
+    return '{%s}%s' % (d, s) if d else s
+
+
+def scopes_of(case: dict) -> dict:
+    """id(abstract node) -> the namespace declarations in scope of that element"""
+    out: dict[int, dict] = {}
+
+    def walk(n: dict, inherited: dict, top: bool) -> None:
+        sc = dict(inherited)
+        sc.update(root_decls(case) if top else (n.get('ns') or {}))
+        out[id(n)] = sc
+        for k in n['kids']:
+            walk(k, sc, False)
+
+    walk(case['doc'], {}, True)
+    return out
+
+
 def oracle(case: dict) -> dict:
     fields, cons, doc = case['fields'], case['cons'], case['doc']
     by_name = {c['name']: c for c in cons}
     nodes = a_dos(doc)
     order = {id(n): i for i, n in enumerate(nodes)}
+    scope = scopes_of(case)
+    fieldns: set = set()
 
     def tup(c, n):
         """tuple of (prim, valuekey) or None entries, for the fields of c on row n"""
@@ -323,6 +414,16 @@ def oracle(case: dict) -> dict:
             want_attr = fx.startswith('@')
             if (loc == 'attr') != want_attr or n['vals'][i] is None:
                 out.append(None)
+            elif ty == 'QName':
+                # the declarations in scope of the node that carries the value: the row for an attribute,
+                # the field element (its own declarations included) for a child
+                sc = scope[id(n)]
+                if loc == 'child' and (n.get('fns') or {}).get(name):
+                    sc = dict(sc)
+                    sc.update(n['fns'][name])
+                    if resolve_qname(n['vals'][i][1], sc) != resolve_qname(n['vals'][i][1], scope[id(n)]):
+                        fieldns.add(c['name'])
+                out.append((PRIM[ty], resolve_qname(n['vals'][i][1], sc)))
             else:
                 out.append((PRIM[ty], n['vals'][i][0]))
         return out
@@ -331,7 +432,7 @@ def oracle(case: dict) -> dict:
         return [tuple(t) for t in (tup(c, n) for n in a_select(c['sel'], s)) if all(x is not None for x in t)]
 
     clauses = set()
-    flags = {'nested': set(), 'spread': set(), 'strq': set(), 'conflict': False}
+    flags = {'nested': set(), 'spread': set(), 'strq': set(), 'conflict': False, 'fieldns': fieldns}
     cover = set()          # branches of the rules reached (input-distribution histogram only)
     work = 0
 
@@ -404,13 +505,50 @@ RE_IDDUP = re.compile(r"duplicated xs:ID value '([^']*)'")
 RE_IDREF = re.compile(r"IDREF '([^']*)' not found")
 
 
+_SCHEMAS: dict = {}
+
+
+def get_schema(case: dict):
+    """the real schema of the case's template.  Schemas are memoised by their source text (the exhaustive
+    families validate thousands of documents against a handful of templates); C10 checks that a used
+    schema validates like a fresh one."""
+    import xmlschema
+    key = (case['v'], schema_text(case))
+    sch = _SCHEMAS.get(key)
+    if sch is None:
+        if len(_SCHEMAS) > 256:
+            _SCHEMAS.clear()
+        cls = xmlschema.XMLSchema11 if case['v'] == '1.1' else xmlschema.XMLSchema10
+        sch = _SCHEMAS[key] = cls(key[1])
+    return sch
+
+
+def lname(x: str) -> str:
+    return x.split('}')[-1].split(':')[-1]
+
+
 def run_impl(case: dict) -> dict:
     """build the real schema, validate, introspect.  Returns canonical errors + the driver request."""
     import xmlschema
+    from xmlschema.namespaces import NamespaceMapper
     from xmlschema.validators.identities import XsdKey, XsdKeyref, XsdUnique
-    cls = xmlschema.XMLSchema11 if case['v'] == '1.1' else xmlschema.XMLSchema10
-    schema = cls(schema_text(case))
-    root = ET.fromstring(xml_text(case))
+    schema = get_schema(case)
+    text = xml_text(case)
+    src = case.get('src', 'etree')
+    if src == 'etree':
+        # an ElementTree element has lost its xmlns declarations: the bindings are passed as an argument
+        # (only generated when every declaration is on the document element)
+        nsarg: Optional[dict] = root_decls(case)
+        resource = xmlschema.XMLResource(ET.fromstring(text))
+    else:
+        nsarg = dict(NSARG) if case.get('nsarg') else None
+        if src == 'lxml':
+            import lxml.etree
+            resource = xmlschema.XMLResource(lxml.etree.fromstring(text.encode('utf-8')))
+        else:
+            resource = xmlschema.XMLResource(text)
+    root = resource.root
+    elems = list(root.iter())          # (kept alive: lxml proxies must stay the same objects)
     pairs: list = []
 
     def hook(elem, xsd_element):
@@ -420,11 +558,12 @@ def run_impl(case: dict) -> dict:
     crashed = None
     errors = []
     try:
-        errors = list(schema.iter_errors(root, validation_hook=hook, namespaces=dict(NSDECL)))
+        errors = list(schema.iter_errors(resource, validation_hook=hook, namespaces=nsarg))
     except KeyError:                # no verdict.  The fully-loaded walk of the current tree cannot raise it
         crashed = 'KeyError'        # (b32146f; the model has no crash outcome): always a failing input
+    # the map the validator starts from, as the real code computes it
+    ns0 = dict(NamespaceMapper(nsarg, source=resource).namespaces)
     # ---- node numbering (document order) and declarations
-    elems = list(root.iter())
     node_id = {id(e): i for i, e in enumerate(elems)}
     decl_of: dict[int, Any] = {}
     decl_ids: dict[int, int] = {}
@@ -451,8 +590,8 @@ def run_impl(case: dict) -> dict:
         refer = None
         if kind == 'keyref' and isinstance(c.refer, (XsdKey, XsdUnique)):
             refer = cid[id(c.refer)]
-        cons_json.append({'id': cid[id(c)], 'kind': kind, 'sel': parse_xpath(c.selector.path),
-                          'fields': [parse_xpath(f.path) for f in c.fields], 'refer': refer,
+        cons_json.append({'id': cid[id(c)], 'kind': kind, 'sel': parse_xpath(c.selector.path, c.selector.namespaces),
+                          'fields': [parse_xpath(f.path, f.namespaces) for f in c.fields], 'refer': refer,
                           'bound': sorted(did(e) for e in c.elements)})
     # declaration -> its identities (through the declaration object that raw_decode ran on)
     decls_json: dict[int, list[int]] = {}
@@ -477,48 +616,68 @@ def run_impl(case: dict) -> dict:
                 attrs.append([name, val, ty_tag(xa.type) if xa is not None else None,
                               1 if tn == 'ID' else 2 if tn == 'IDREF' else 0])
         return {'i': node_id[id(e)], 'd': d, 'n': e.tag, 'a': attrs, 't': ety, 'x': e.text or '',
+                'ns': [[p, u] for p, u in (resource.get_xmlns(e) or [])],      # declarations as the loader kept them
                 'k': [ser(k) for k in e]}
 
     doc_json = ser(root)
     req = {'schema': {'cons': cons_json, 'decls': [[d, cs] for d, cs in sorted(decls_json.items())],
-                      'ns': [[p, u] for p, u in sorted(NSDECL.items())]}, 'doc': doc_json}
+                      'ns': [[p, u] for p, u in sorted(ns0.items())], 'fscope': FSCOPE}, 'doc': doc_json}
     # ---- canonical errors
-    names = {cid[id(c)]: c.name for c in idents}
-    canon: list = []
-    other: list = []
-    for e in errors:
-        reason = e.reason or ''
-        el = getattr(e, 'elem', None)
-        nid = node_id.get(id(el), 0) if el is not None else 0
-        m = RE_DUP.search(reason)
-        if m and 'xs:ID' not in reason:
-            canon.append(['dup', m.group(1), nid, 0])
-            continue
-        m = RE_MISSING.search(reason)
-        if m:
-            canon.append(['missing', m.group(1), nid, 0])
-            continue
-        m = RE_MULTI.search(reason)
-        if m:
-            canon.append(['multi', m.group(1), nid, 0])
-            continue
-        m = RE_NOTFOUND.search(reason)
-        if m:
-            canon.append(['notfound', m.group(1), nid, int(m.group(2) or 1)])
-            continue
-        m = RE_IDDUP.search(reason)
-        if m:
-            canon.append(['iddup', m.group(1), 0, 0])
-            continue
-        m = RE_IDREF.search(reason)
-        if m:
-            canon.append(['idref', m.group(1), 0, 0])
-            continue
-        other.append(reason[:200])
+    names = {cid[id(c)]: lname(c.name) for c in idents}
+
+    def canonical(errs) -> tuple:
+        canon: list = []
+        other: list = []
+        for e in errs:
+            reason = e.reason or ''
+            el = getattr(e, 'elem', None)
+            nid = node_id.get(id(el), 0) if el is not None else 0
+            m = RE_DUP.search(reason)
+            if m and 'xs:ID' not in reason:
+                canon.append(['dup', lname(m.group(1)), nid, 0])
+                continue
+            m = RE_MISSING.search(reason)
+            if m:
+                canon.append(['missing', m.group(1), nid, 0])
+                continue
+            m = RE_MULTI.search(reason)
+            if m:
+                canon.append(['multi', m.group(1), nid, 0])
+                continue
+            m = RE_NOTFOUND.search(reason)
+            if m:
+                canon.append(['notfound', lname(m.group(1)), nid, int(m.group(2) or 1)])
+                continue
+            m = RE_IDDUP.search(reason)
+            if m:
+                canon.append(['iddup', m.group(1), 0, 0])
+                continue
+            m = RE_IDREF.search(reason)
+            if m:
+                canon.append(['idref', m.group(1), 0, 0])
+                continue
+            other.append(reason[:200])
+        return sorted(canon), other
+
+    canon, other = canonical(errors)
     clauses = set()
     for k, a, _, _ in canon:
         clauses.add((k, a) if k in ('dup', 'notfound') else (k,))
-    return {'errors': sorted(canon), 'other': other, 'crash': crashed, 'clauses': clauses, 'req': req,
+    # ---- second observation: the decoding path (DecodeContext; the namespace map is then the converter's own,
+    # whose default xmlns processing mode depends on the converter class) and is_valid must report the same
+    decode = None
+    if case.get('decode') and not crashed:
+        from xmlschema import converters as cv
+        conv = {'default': None, 'jsonml': cv.JsonMLConverter, 'dataelement': xmlschema.DataElementConverter,
+                'badgerfish': cv.BadgerFishConverter, 'unordered': cv.UnorderedConverter, 'parker': cv.ParkerConverter,
+                'abdera': cv.AbderaConverter, 'columnar': cv.ColumnarConverter, 'gdata': cv.GDataConverter}[case['decode']]
+        try:
+            _, derrs = schema.decode(resource, validation='lax', converter=conv, namespaces=nsarg)
+            dcanon, dother = canonical(derrs)
+            decode = {'errors': dcanon, 'other': dother, 'is_valid': schema.is_valid(resource, namespaces=nsarg)}
+        except Exception as exc:       # noqa: BLE001  (reported as a failing input by `evaluate`)
+            decode = {'raised': type(exc).__name__ + ': ' + str(exc)[:200]}
+    return {'errors': canon, 'other': other, 'crash': crashed, 'clauses': clauses, 'req': req, 'decode': decode,
             'names': names, 'cons': cons_json, 'n_unpaired': sum(1 for e in elems if id(e) not in decl_of)}
 
 
@@ -581,6 +740,10 @@ def known_match(case: dict, detail: dict) -> Optional[str]:
         involved = {c['name'] for c in case['cons'] if c['kind'] == 'key'}
     if involved & set(fl['nested']):
         return 'C08-F3'
+    if not FSCOPE and involved & set(fl.get('fieldns', ())):
+        # a QName field on a child element that has xmlns declarations of its own is resolved with the map of
+        # the selected node.  No rule on a tree that resolves at the field node (detect_mode).
+        return 'C08-F8'
     # (C08-F6 is fixed, cc593f3: a dup reported for partially absent unique tuples is a violation)
     if cl[0] == 'notfound':
         krs = detail['keyrefs'].get(cl[1], [])
@@ -608,7 +771,7 @@ def evaluate(ctx: Ctx, case: dict, reqs: Optional[list], pend: Optional[list], t
     impl['field_paths'] = {}
     for cj in impl['cons']:
         src = next(c for c in case['cons'] if c['name'] == impl['names'][cj['id']])
-        impl['field_paths'][cj['id']] = src['fields']
+        impl['field_paths'][cj['id']] = [qual_xpath(fx, bool(case.get('tns'))) for fx in src['fields']]
     ctx.case(case, orc['work'] > 0, tag=tag)
     ctx.count('fields:%d' % len(case['fields']))
     for c in case['cons']:
@@ -618,6 +781,10 @@ def evaluate(ctx: Ctx, case: dict, reqs: Optional[list], pend: Optional[list], t
     for k in sorted(orc['cover']):
         ctx.count('branch:' + k)
     ctx.count('verdict:' + ('crash' if impl['crash'] else 'invalid' if impl['errors'] else 'valid'))
+    for k in ns_stats(case):
+        ctx.count(k)
+    if orc['flags']['fieldns']:
+        ctx.count('branch:qname-field-element-own-declarations-change-value')
     if impl['other']:
         # the generator promises documents that are valid apart from identity constraints
         ctx.count('generator-fault')
@@ -626,6 +793,15 @@ def evaluate(ctx: Ctx, case: dict, reqs: Optional[list], pend: Optional[list], t
     if impl['n_unpaired'] and not impl['crash']:
         ctx.mismatch('instance elements not paired with a declaration', case, impl['n_unpaired'], 0)
         return
+    dec = impl.get('decode')
+    if dec is not None:
+        ctx.count('observation:decode(lax,%s)+is_valid' % case['decode'])
+        if 'raised' in dec:
+            ctx.failure('decoding with validation=lax raised instead of reporting errors', case, dec)
+        elif dec['errors'] != impl['errors'] or dec['other'] or dec['is_valid'] != (not impl['errors']):
+            # one of the two entry points differs from the property (they cannot both agree with it)
+            ctx.failure('decode(validation=lax) / is_valid report other identity violations than iter_errors',
+                        case, {'iter_errors': impl['errors'], 'decode': dec})
     if reqs is not None and impl['n_unpaired'] == 0:
         reqs.append(impl['req'])
         pend.append((case, impl, orc))
@@ -641,7 +817,7 @@ def judge(ctx: Ctx, case: dict, impl: dict, orc: dict, model_agrees: Optional[bo
         if c['kind'] == 'keyref':
             keyrefs.setdefault(c['refer'], []).append(c['name'])
     flj = {'nested': sorted(fl['nested']), 'spread': sorted(list(x) for x in fl['spread']),
-           'strq': sorted(fl['strq']), 'conflict': fl['conflict']}
+           'strq': sorted(fl['strq']), 'conflict': fl['conflict'], 'fieldns': sorted(fl['fieldns'])}
     if impl['crash']:
         d = {'clause': ('crash',), 'side': 'crash', 'flags': flj, 'model_agrees': model_agrees, 'keyrefs': keyrefs}
         fid = known_match(case, d)
@@ -699,12 +875,18 @@ def flush(ctx: Ctx, drv: Driver, reqs: list, pend: list) -> None:
                 names = impl['names']
                 lflags = {'nested': sorted(names[c] for c in ans['m']['nested']),
                           'spread': sorted({(names[c], m) for c, m in lf['spread']}),
-                          'strq': sorted(names[c] for c in lf['strq']), 'conflict': lf['conflict']}
+                          'strq': sorted(names[c] for c in lf['strq']), 'conflict': lf['conflict'],
+                          'fieldns': sorted(names[c] for c in lf['fieldns'])}
                 pflags = {'nested': None, 'spread': sorted(pf['spread']), 'strq': sorted(pf['strq']),
-                          'conflict': pf['conflict']}
+                          'conflict': pf['conflict'], 'fieldns': sorted(pf['fieldns'])}
                 lflags['nested'] = None       # dynamic (model) vs static (oracle) notion: not compared
                 if lflags != pflags:
                     ctx.mismatch('guard flags', case, pflags, lflags)
+                if ans.get('nsdiff'):
+                    # proved impossible (ns_collect_scope); a non-empty list means the driver was given ids
+                    # that are not distinct or the theorem's model is not the one linked into the driver
+                    ctx.mismatch('model: namespace map at a collect differs from the declarations in scope',
+                                 case, None, ans['nsdiff'])
         judge(ctx, case, impl, orc, agrees)
     reqs.clear()
     pend.clear()
@@ -768,13 +950,141 @@ def exhaustive_cases(ctx: Ctx):
                        'doc': {'tag': 'root', 'vals': [], 'kids': rows, 'id': None, 'idref': None}}
 
 
+def gen_decl(rng, tns: bool) -> dict:
+    """xmlns declarations of one element: rebinds one or two of the prefixes the QName values use (and, on the
+    target-namespace template, the default namespace; xmlns="" undeclares it)"""
+    d = {}
+    for _ in range(rng.choice([1, 1, 2])):
+        p = rng.choice(['p', 'q', 'r'] + (['', ''] if tns else []))
+        d[p] = rng.choice(URIS + ([''] if p == '' else []))
+    return d
+
+
+def note_node(rng, tns: bool, tag: str = 'note', depth: int = 0, p_decl: float = 0.7) -> dict:
+    n = {'tag': tag, 'vals': [], 'kids': [], 'id': None, 'idref': None}
+    if rng.random() < p_decl:
+        n['ns'] = gen_decl(rng, tns)
+    if depth < 2 and rng.random() < 0.35:
+        n['kids'] = [note_node(rng, tns, 'note', depth + 1) for _ in range(rng.randint(1, 2))]
+    return n
+
+
+def scatter_ns(rng, case: dict) -> None:
+    """the dimension `namespace declarations in scope where a field value is read`: declarations on the root
+    (possibly other than NSDECL), containers, rows, field child elements, leading / trailing children of rows
+    (and their descendants) and sibling notes between rows"""
+    tns, fields, root = bool(case.get('tns')), case['fields'], case['doc']
+    root['ns'] = dict(NSDECL)
+    if tns and rng.random() < 0.5:
+        root['ns'][''] = rng.choice(URIS)
+    if rng.random() < 0.2:
+        root['ns'][rng.choice('pqr')] = rng.choice(URIS)
+
+    def walk(n: dict) -> None:
+        for k in list(n['kids']):
+            walk(k)
+        if n['tag'] in ('root', 'sec', 'sub'):
+            if n is not root and rng.random() < 0.25:
+                n['ns'] = gen_decl(rng, tns)
+            for _ in range(rng.choice([0, 0, 0, 1, 1, 2])):
+                n['kids'].insert(rng.randint(0, len(n['kids'])), note_node(rng, tns))
+        elif n['tag'] in ('item', 'ref'):
+            if rng.random() < 0.3:
+                n['ns'] = gen_decl(rng, tns)
+            for f, v in zip(fields, n['vals']):
+                loc = f['loc'] if n['tag'] == 'item' else f['rloc']
+                if loc == 'child' and v is not None and rng.random() < 0.4:
+                    n.setdefault('fns', {})[f['name']] = gen_decl(rng, tns)
+            if rng.random() < 0.45:
+                n['kids'] = n['kids'] + [note_node(rng, tns) for _ in range(rng.randint(1, 2))]
+            if rng.random() < 0.2:
+                n['kids'].insert(0, note_node(rng, tns, 'pre'))
+
+    walk(root)
+
+
 def random_case(rng, big: bool) -> dict:
+    nsmode = rng.choice(['root', 'root', 'scatter', 'scatter', 'scatter'])
+    tns = rng.random() < 0.4
     nf = rng.choice([1, 1, 2, 2, 3])
-    fields = gen_fields(rng, nf)
+    fields = gen_fields(rng, nf, 0.5 if nsmode == 'scatter' else 0.0)
     recursive = rng.random() < 0.12
     cons = gen_constraints(rng, fields, recursive)
-    return {'v': rng.choice(['1.0', '1.0', '1.1']), 'recursive': recursive, 'fields': fields, 'cons': cons,
-            'doc': gen_doc(rng, fields, recursive, big)}
+    case = {'v': rng.choice(['1.0', '1.0', '1.1']), 'recursive': recursive, 'fields': fields, 'cons': cons,
+            'doc': gen_doc(rng, fields, recursive, big, tns), 'tns': tns,
+            'src': rng.choice(['etree', 'etree', 'text', 'lxml'] if nsmode == 'root' else ['text', 'text', 'lxml'])}
+    if nsmode == 'scatter':
+        scatter_ns(rng, case)
+    elif tns and rng.random() < 0.5:
+        case['doc']['ns'] = dict(NSDECL, **{'': rng.choice(URIS)})
+    if case['src'] != 'etree' and rng.random() < 0.25:
+        case['nsarg'] = True
+    if rng.random() < 0.2:
+        case['decode'] = rng.choice(['default', 'jsonml', 'dataelement', 'badgerfish', 'unordered', 'parker', 'abdera',
+                                     'columnar', 'gdata'])
+    return case
+
+
+def ns_stats(case: dict) -> list[str]:
+    """tags of the namespace dimension reached by a case (evidence histogram)"""
+    fields = case['fields']
+    out = {'ns:src=' + case.get('src', 'etree') + ('+namespaces-arg' if case.get('nsarg') else '')}
+    if case.get('tns'):
+        out.add('ns:target-namespace-template')
+    scope = scopes_of(case)
+    root = case['doc']
+
+    def rebinding(n: dict, used: dict) -> bool:
+        """does the subtree n (declarations of n included) rebind a prefix of `used` to another URI?"""
+        return any(used.get(p, u) != u for p, u in (n.get('ns') or {}).items() if p in used) or \
+            any(rebinding(k, used) for k in n['kids'])
+
+    def walk(n: dict, parent: Optional[dict]) -> None:
+        if n is not root and n.get('ns'):
+            out.add('ns:decl@' + ('row' if n['tag'] in ('item', 'ref') else
+                                  'container' if n['tag'] in ('sec', 'sub') else
+                                  n['tag'] + ('-of-row' if parent and parent['tag'] in ('item', 'ref') else
+                                              '-nested' if parent and parent['tag'] in ('note', 'pre') else
+                                              '-sibling-of-rows')))
+            if '' in n['ns']:
+                out.add('ns:default-namespace-redeclared')
+        if n is root and '' in root_decls(case):
+            out.add('ns:default-namespace@root')
+        if n['tag'] in ('item', 'ref'):
+            if n.get('fns'):
+                out.add('ns:decl@field-element')
+            used = {}
+            for f, v in zip(fields, n['vals']):
+                ty = f['ty'] if n['tag'] == 'item' else f['rty']
+                if ty == 'QName' and v is not None:
+                    lex = v[1].strip()
+                    pfx = lex.split(':', 1)[0] if ':' in lex else ''
+                    if pfx in scope[id(n)]:
+                        used[pfx] = scope[id(n)][pfx]
+            if used:
+                out.add('ns:qname-field-row')
+                kids = n['kids']
+                if any(rebinding(k, used) for k in kids):
+                    out.add('ns:qname-row/descendant-rebinds-used-prefix')
+                if kids and kids[-1]['tag'] != 'pre' and rebinding(kids[-1], used):
+                    out.add('ns:qname-row/LAST-child-subtree-rebinds-used-prefix')
+                if any(any(used.get(p, u) != u for p, u in d.items() if p in used)
+                       for d in (n.get('fns') or {}).values()):
+                    out.add('ns:qname-row/field-element-rebinds-used-prefix')
+                if any(used.get(p, u) != u for p, u in (n.get('ns') or {}).items() if p in used) or \
+                        (parent is not None and any(scope[id(n)].get(p) != u for p, u in root_decls(case).items()
+                                                    if p in used)):
+                    out.add('ns:qname-row/binding-differs-from-root')
+                if parent is not None:
+                    sibs = parent['kids']
+                    i = next(j for j, x in enumerate(sibs) if x is n)
+                    if any(rebinding(x, used) for x in sibs[:i]):
+                        out.add('ns:qname-row/preceding-sibling-rebinds-used-prefix')
+        for k in n['kids']:
+            walk(k, n)
+
+    walk(root, None)
+    return sorted(out)
 
 
 WITNESSES = {
@@ -804,7 +1114,27 @@ WITNESSES = {
                'doc': {'tag': 'root', 'vals': [], 'id': None, 'idref': None, 'kids': [
                    {'tag': 'item', 'vals': [['s:{urn:a}x', '{urn:a}x']], 'kids': [], 'id': None, 'idref': None},
                    {'tag': 'ref', 'vals': [['{urn:a}x', 'p:x']], 'kids': [], 'id': None, 'idref': None}]}},
+    # a QName field on a child element that rebinds the prefix on itself: the two values differ ({urn:a}x,
+    # {urn:b}x); the map of the selected node makes them equal
+    'C08-F8': {'v': '1.0', 'recursive': False, 'src': 'text',
+               'fields': [{'name': 'f1', 'loc': 'child', 'ty': 'QName', 'rloc': 'attr', 'rty': 'QName'}],
+               'cons': [{'name': 'K', 'kind': 'key', 'on': 'root', 'sel': 'item', 'fields': ['f1'], 'refer': None}],
+               'doc': {'tag': 'root', 'vals': [], 'id': None, 'idref': None, 'ns': dict(NSDECL), 'kids': [
+                   {'tag': 'item', 'vals': [[None, 'p:x']], 'kids': [], 'id': None, 'idref': None},
+                   {'tag': 'item', 'vals': [[None, 'p:x']], 'kids': [], 'id': None, 'idref': None,
+                    'fns': {'f1': {'p': 'urn:b'}}}]}},
 }
+
+
+def detect_mode() -> None:
+    """does the tree under check resolve a QName field with the declarations in scope of the node the field
+    selects (C08-F8 repaired) or with the map of the selected node?  Decided by the F8 witness; the answer only
+    selects which of the two proved variants of the model (`codeConv fscope`) the driver runs and whether the
+    F8 match rule exists.  The property is judged against the same oracle either way."""
+    global FSCOPE
+    FSCOPE = False
+    impl = run_impl(WITNESSES['C08-F8'])
+    FSCOPE = not impl['crash'] and not impl['errors']
 
 
 def _row(tag, *vals):
@@ -889,8 +1219,73 @@ def unique_partial_cases(ctx: Ctx):
                            'id': None, 'idref': None}}
 
 
+def ns_placement_cases(ctx: Ctx):
+    """exhaustive: WHERE a declaration that rebinds the prefix of a QName field value sits relative to the
+    selected row.  Rows A = item(f1 = p:x), B = item(f1 = p:x | r:x), optional C = ref(f1 = p:x); key K on
+    item/f1, keyref R on ref/@f1; f1 of the items an attribute or a child element; a second child field f2
+    (integer, not part of the constraints) hosts declarations.  Each of A, B (and C) gets one placement of
+    xmlns:p="urn:b" out of: none / on the row / on the f1 element / on the f2 element / on a trailing note /
+    on a note nested in a trailing note / on a leading pre / on a note sibling before / after the row.
+    On the target-namespace template the same with unprefixed values and the default namespace, the root
+    declaring a default namespace or none (a declaration below the root then BINDS what was unbound)."""
+    places = ['none', 'self', 'f1', 'f2', 'note', 'note2', 'pre', 'sib-before', 'sib-after']
+
+    def mk_row(tag, lex, place, decl, f1_child):
+        r = {'tag': tag, 'vals': [[None, lex], ['n1', '1']], 'kids': [], 'id': None, 'idref': None}
+        before, after = [], []
+        note = lambda ns=None, kids=None, t='note': dict({'tag': t, 'vals': [], 'kids': kids or [], 'id': None,
+                                                          'idref': None}, **({'ns': dict(ns)} if ns else {}))
+        if place == 'self':
+            r['ns'] = dict(decl)
+        elif place == 'f1':
+            r['fns'] = {'f1': dict(decl)}
+        elif place == 'f2':
+            r['fns'] = {'f2': dict(decl)}
+        elif place == 'note':
+            r['kids'] = [note(decl)]
+        elif place == 'note2':
+            r['kids'] = [note(None, [note(decl)])]
+        elif place == 'pre':
+            r['kids'] = [note(decl, None, 'pre')]
+        elif place == 'sib-before':
+            before = [note(decl)]
+        elif place == 'sib-after':
+            after = [note(decl)]
+        return before + [r] + after
+
+    n = 0
+    for tns, rootdef in ((False, None), (True, 'urn:a'), (True, None)):
+        decl = {'': 'urn:b'} if tns else {'p': 'urn:b'}
+        a_lex = 'x' if tns else 'p:x'
+        for loc in ('attr', 'child'):
+            fields = [{'name': 'f1', 'loc': loc, 'ty': 'QName', 'rloc': 'attr', 'rty': 'QName'},
+                      {'name': 'f2', 'loc': 'child', 'ty': 'integer', 'rloc': 'child', 'rty': 'integer'}]
+            cons = [{'name': 'K', 'kind': 'key', 'on': 'root', 'sel': 'item', 'fields': [field_xpath(fields[0], 'item')],
+                     'refer': None},
+                    {'name': 'R', 'kind': 'keyref', 'on': 'root', 'sel': 'ref', 'fields': ['@f1'], 'refer': 'K'}]
+            pl = [x for x in places if x != 'f1' or loc == 'child']
+            small = tns and ctx.quick()
+            for pa in pl:
+                for pb in (['none', 'self', 'note'] if small else pl):
+                    for b_lex in (a_lex, 'r:x'):
+                        for pc in ([None, 'none'] if small else [None, 'none', 'self', 'note']):
+                            kids = mk_row('item', a_lex, pa, decl, loc == 'child') + \
+                                mk_row('item', b_lex, pb, decl, loc == 'child')
+                            if pc is not None:
+                                kids = kids + mk_row('ref', a_lex, pc if pc != 'f1' else 'none', decl, False)
+                            n += 1
+                            rootns = dict(NSDECL, **({'': rootdef} if rootdef else {}))
+                            yield {'v': '1.0', 'recursive': False, 'fields': fields, 'cons': cons, 'tns': tns,
+                                   'src': 'lxml' if n % 3 == 0 else 'text',
+                                   **({'decode': ['default', 'jsonml', 'dataelement', 'parker', 'columnar'][n // 4 % 5]} if n % 4 == 0 else {}),
+                                   'doc': {'tag': 'root', 'vals': [], 'kids': kids, 'id': None, 'idref': None,
+                                           'ns': rootns}}
+
+
 def run(ctx: Ctx, driver_ok: bool) -> None:
     load_findings(ctx)
+    detect_mode()
+    ctx.count('mode:qname-fields-resolved-at-' + ('field-node' if FSCOPE else 'selected-node'))
     drv = Driver('drv_c08') if driver_ok else None
     reqs: Optional[list] = [] if drv else None
     pend: Optional[list] = [] if drv else None
@@ -915,7 +1310,9 @@ def run(ctx: Ctx, driver_ok: bool) -> None:
         go(case, 'exhaustive-absent-refer')
     for case in unique_partial_cases(ctx):
         go(case, 'exhaustive-unique-partial')
-    n = ctx.pick(2500, 30000)
+    for case in ns_placement_cases(ctx):
+        go(case, 'exhaustive-ns-placement')
+    n = ctx.pick(4000, 30000)
     for i in range(n):
         go(random_case(ctx.rng, big=(i % 5 == 4)), 'random')
         if ctx.time_left() < 120:
@@ -928,7 +1325,10 @@ def run(ctx: Ctx, driver_ok: bool) -> None:
                                 'value, a second value} for each of the 5 field types x unique/key x attribute/child; every '
                                 'pair of 2-field rows x one reference row; every ID/IDREF assignment over 3+2 rows; every '
                                 'table of reference rows whose referenced key never occurs; every 3-row table of a 2-field '
-                                'unique (quick: those with a partially absent tuple).  '
+                                'unique (quick: those with a partially absent tuple); every placement of a declaration '
+                                'rebinding the prefix (default namespace) of a QName field value relative to two key rows '
+                                'and a reference row (on the row, its field elements, leading / trailing children, a nested '
+                                'descendant, sibling notes before / after) x attribute / child field x text / lxml source.  '
                                 'random: %d seeded template x document cases') % (ctx.pick(3, 4), n)
 
 
@@ -946,6 +1346,10 @@ def replay(ctx: Ctx, obj: dict) -> int:
     if not case or 'doc' not in case:
         return 0
     load_findings(ctx)
+    detect_mode()
+    print('source kind:', case.get('src', 'etree'), ' namespaces argument:',
+          root_decls(case) if case.get('src', 'etree') == 'etree' else (NSARG if case.get('nsarg') else None),
+          ' QName fields resolved at the', 'field node' if FSCOPE else 'selected node (C08-F8)')
     print('--- schema ---\n' + schema_text(case))
     print('--- document ---\n' + xml_text(case))
     impl = run_impl(case)
@@ -955,8 +1359,10 @@ def replay(ctx: Ctx, obj: dict) -> int:
     drv_path = Driver('drv_c08')
     agrees = None
     if drv_path.path.exists() and not (impl['crash'] and impl['n_unpaired']):
-        impl['field_paths'] = {cj['id']: next(c for c in case['cons'] if c['name'] == impl['names'][cj['id']])['fields']
-                               for cj in impl['cons']}
+        impl['field_paths'] = {
+            cj['id']: [qual_xpath(fx, bool(case.get('tns')))
+                       for fx in next(c for c in case['cons'] if c['name'] == impl['names'][cj['id']])['fields']]
+            for cj in impl['cons']}
         ans = drv_path.query([impl['req']])[0]
         if 'err' not in ans:
             mc = model_canon(ans, impl)
